@@ -1,6 +1,810 @@
-//! C09 — not built yet.
-use crate::rt::*;
+//! C09 — the NTT is the documented evaluation map, invertible, convolution-preserving.
+//!
+//! Oracle (independent of heathcliff::util): the *definition* out[i] = p(psi^(2*bitrev(i)+1))
+//! with psi = tables.root(), after psi itself has been checked to be the minimal primitive
+//! 2N-th root of unity by brute force (`refm::min_primitive_2n_root`). Unit vectors use the
+//! column formula (column j of the transform matrix is psi^((2*bitrev(i)+1)*j)), so all N
+//! of them cost O(N^2) table look-ups. Dense vectors use the O(N^2) definition sum
+//! (`fwd_def`, cross-checked in-run against `refm::ntt_ref` for N <= 64). Products use the
+//! schoolbook negacyclic product, shifts the definition X^s * X^i = X^(i+s), X^N = -1.
+//!
+//! Documented ranges of the lazy forms (sources in the library):
+//!   forward lazy: inputs in [0,4q) -> outputs in [0,4q)   (src/util/rns.rs:725,732 ; src/util/ntt.rs:161-162)
+//!   inverse lazy: inputs in [0,2q) -> outputs in [0,2q)   (butterfly invariant of transform_from_rev with
+//!       ModArithLazy, src/util/dwthandler.rs:111-114 ; callers add 2q to the result, src/evaluator.rs:1296-1304)
+//! Inverse-lazy inputs in [2q,4q) are executed as out-of-precondition probes only.
 
-pub fn run(_cfg: &Cfg, _rep: &mut Report) -> PropMeta {
-    PropMeta { id: "C09", level: "exploration", rule: "not built", assumptions: vec![], exhaustive: false, floor: 1 }
+use crate::refm;
+use crate::rt::*;
+use heathcliff::util as hu;
+use heathcliff::util::NTTTables;
+use heathcliff::verif::polysmallmod as pm;
+use heathcliff::Modulus;
+use serde_json::{json, Value};
+use std::collections::BTreeSet;
+
+const P: &str = "C09";
+const G_PAIR: &str = "pair";
+const G_XPROC: &str = "xproc";
+const CHILD_ENV: &str = "HV_C09_TABLE_CHILD";
+
+const E_FWD: &str = "NTTTables::ntt_negacyclic_harvey";
+const E_FWD_LAZY: &str = "NTTTables::ntt_negacyclic_harvey_lazy";
+const E_INV: &str = "NTTTables::inverse_ntt_negacyclic_harvey";
+const E_INV_LAZY: &str = "NTTTables::inverse_ntt_negacyclic_harvey_lazy";
+const E_PM_FWD: &str = "polysmallmod::ntt";
+const E_PM_FWD_LAZY: &str = "polysmallmod::ntt_lazy";
+const E_PM_INV: &str = "polysmallmod::intt";
+const E_PM_INV_LAZY: &str = "polysmallmod::intt_lazy";
+const E_PM_FWD_P: &str = "polysmallmod::ntt_p";
+const E_PM_INV_P: &str = "polysmallmod::intt_p";
+const E_DYADIC: &str = "polysmallmod::dyadic_product";
+const E_DYADIC_INPLACE: &str = "polysmallmod::dyadic_product_inplace";
+const E_DYADIC_P: &str = "polysmallmod::dyadic_product_p";
+const E_SHIFT: &str = "polysmallmod::negacyclic_shift";
+const E_NEW: &str = "NTTTables::new";
+const E_ROOT: &str = "NTTTables::root";
+
+#[derive(Clone, Copy)]
+struct Pair { logn: usize, q: u64, src: &'static str, sample: bool }
+#[derive(Clone, Copy)]
+struct Work { pair: usize, part: usize, parts: usize }
+
+/// per-case context: everything a violation needs
+struct Cx<'a> { cfg: &'a Cfg, grp: &'static str, case: u64, n: usize, q: u64, bits: usize, src: &'static str }
+impl<'a> Cx<'a> {
+    fn ncls(&self) -> &'static str { match self.n { 2 => "2", 4 => "4", _ => ">=8" } }
+    fn qcls(&self) -> &'static str { if self.bits == 61 { "61" } else if self.bits >= 32 { "32..60" } else { "3..31" } }
+    fn sig(&self, entry: &str, vec: &str, kind: &str) -> String { format!("{}|{}|vec={};n={};qbits={}|{}", P, entry, vec, self.ncls(), self.qcls(), kind) }
+    fn replay(&self, extra: Value) -> Value { replay_json(self.cfg, self.grp, self.case, json!({"n": self.n, "q": self.q, "modulus_source": self.src, "what": extra})) }
+    fn class(&self, kind: &str) -> String { format!("n{}-b{}-{}", self.n, self.bits, kind) }
+}
+
+/// library call that must not panic on in-domain input
+fn call<T>(cx: &Cx, rep: &mut Report, entry: &str, vec: &str, f: impl FnOnce() -> T) -> Option<T> {
+    rep.count("entry_point", entry);
+    match lib(f) {
+        Ok(v) => Some(v),
+        Err(p) => {
+            rep.violation(&cx.sig(entry, vec, "panic"), format!("{} panicked on in-domain input (N={}, q={}, vector={}): {}", entry, cx.n, cx.q, vec, p.0),
+                cx.replay(json!({"entry": entry, "vector": vec})));
+            None
+        }
+    }
+}
+
+// ------------------------------------------------------------------ reference side
+struct RefT {
+    n: usize, q: u64, psi: u64,
+    /// psi^k, k in 0..2N
+    pw: Vec<u64>,
+    /// N^-1 * psi^-k, k in 0..2N
+    ipws: Vec<u64>,
+    /// 2*bitrev(i)+1
+    exps: Vec<usize>,
+}
+
+fn build_ref(n: usize, logn: usize, q: u64, psi: u64) -> RefT {
+    let mut pw = vec![1u64 % q; 2 * n];
+    for k in 1..2 * n { pw[k] = refm::mulmod(pw[k - 1], psi, q); }
+    let ipsi = refm::invmod(psi, q).expect("psi invertible (checked primitive before)");
+    let ninv = refm::invmod(n as u64 % q, q).expect("N invertible modulo a prime > N");
+    let mut ipws = vec![ninv; 2 * n];
+    for k in 1..2 * n { ipws[k] = refm::mulmod(ipws[k - 1], ipsi, q); }
+    let exps = (0..n).map(|i| 2 * refm::bitrev(i, logn) + 1).collect();
+    RefT { n, q, psi, pw, ipws, exps }
+}
+
+/// The definition of the forward transform on a reduced vector: out[i] = sum_j a[j] psi^((2 bitrev(i)+1) j).
+/// (Same sum as refm::ntt_ref, with one 128-bit reduction per 32 terms: 32 * 2^122 + 2^61 < 2^128.)
+fn fwd_def(r: &RefT, a: &[u64]) -> Vec<u64> {
+    let n = r.n; let mask = 2 * n - 1; let q = r.q as u128;
+    let mut out = vec![0u64; n];
+    for i in 0..n {
+        let e = r.exps[i];
+        let mut idx = 0usize; let mut acc = 0u128;
+        for j in 0..n {
+            acc += a[j] as u128 * r.pw[idx] as u128;
+            idx = (idx + e) & mask;
+            if j & 31 == 31 { acc %= q; }
+        }
+        out[i] = (acc % q) as u64;
+    }
+    out
+}
+
+/// X^s * p mod (X^N + 1, q) for reduced p, s in [0,2N): X^i -> X^(i+s), X^N = -1.
+fn shift_def(p: &[u64], s: usize, q: u64) -> Vec<u64> {
+    let n = p.len(); let mask = 2 * n - 1;
+    let mut r = vec![0u64; n];
+    for i in 0..n {
+        let k = (i + s) & mask;
+        if k < n { r[k] = p[i]; } else { r[k - n] = if p[i] == 0 { 0 } else { q - p[i] }; }
+    }
+    r
+}
+
+fn reduce_vec(v: &[u64], q: u64) -> Vec<u64> { v.iter().map(|&x| x % q).collect() }
+
+fn gen_vec(rng: &mut Rng, n: usize, q: u64, mult: u64, kind: &str) -> Vec<u64> {
+    let bound = mult * q;
+    match kind {
+        "random" => (0..n).map(|_| rng.below(bound)).collect(),
+        "max" => vec![bound - 1; n],
+        _ => { // boundary mix
+            let mut cand = vec![0u64, 1 % bound, q - 1];
+            if mult >= 2 { cand.extend_from_slice(&[q, q + 1, 2 * q - 1]); }
+            if mult >= 4 { cand.extend_from_slice(&[2 * q, 2 * q + 1, 3 * q, 4 * q - 1]); }
+            (0..n).map(|_| if rng.chance(1, 5) { rng.below(bound) } else { *rng.pick(&cand) }).collect()
+        }
+    }
+}
+
+fn small(v: &[u64]) -> Value { if v.len() <= 16 { json!(v) } else { json!({"len": v.len(), "first8": &v[..8], "last": v[v.len() - 1]}) } }
+
+/// exact comparison; returns true if equal
+fn cmp_exact(cx: &Cx, rep: &mut Report, entry: &str, vec: &str, input: &[u64], got: &[u64], want: &[u64]) -> bool {
+    if got == want { return true; }
+    let bad: Vec<usize> = (0..want.len().min(got.len())).filter(|&i| got[i] != want[i]).collect();
+    let i0 = bad.first().copied().unwrap_or(0);
+    rep.violation(&cx.sig(entry, vec, "value"),
+        format!("{}: N={} q={} vector={}: {} of {} outputs differ from the definition; first at index {}: got {}, expected {}; input {} got {} expected {}",
+            entry, cx.n, cx.q, vec, bad.len(), want.len(), i0, got.get(i0).copied().unwrap_or(0), want.get(i0).copied().unwrap_or(0), small(input), small(got), small(want)),
+        cx.replay(json!({"entry": entry, "vector": vec, "input": small(input)})));
+    false
+}
+
+/// lazy form: every output below mult*q and congruent to `want`
+fn cmp_lazy(cx: &Cx, rep: &mut Report, entry: &str, vec: &str, input: &[u64], got: &[u64], want: &[u64], mult: u64, extreme: &str) -> bool {
+    let q = cx.q; let bound = mult * q;
+    let mut mx = 0u64; let mut ok = true;
+    for i in 0..want.len() {
+        if got[i] > mx { mx = got[i]; }
+        if got[i] >= bound && ok {
+            ok = false;
+            rep.violation(&cx.sig(entry, vec, "range"),
+                format!("{}: N={} q={} vector={}: output[{}] = {} is not below {}q = {} although every input is below its documented bound; input {}", entry, cx.n, q, vec, i, got[i], mult, bound, small(input)),
+                cx.replay(json!({"entry": entry, "vector": vec, "input": small(input)})));
+        }
+    }
+    let red = reduce_vec(got, q);
+    if red != want {
+        let i0 = (0..want.len()).find(|&i| red[i] != want[i]).unwrap_or(0);
+        ok = false;
+        rep.violation(&cx.sig(entry, vec, "value"),
+            format!("{}: N={} q={} vector={}: output[{}] = {} (mod q: {}) is not congruent to {}; input {} got {}", entry, cx.n, q, vec, i0, got[i0], red[i0], want[i0], small(input), small(got)),
+            cx.replay(json!({"entry": entry, "vector": vec, "input": small(input)})));
+    }
+    rep.max(extreme, mx as f64 / q as f64);
+    ok
+}
+
+fn new_tables(logn: usize, m: &Modulus) -> Result<NTTTables, String> { NTTTables::new(logn, m).map_err(|e| e.to_string()) }
+
+fn fnv_words(h: &mut u64, w: u64) { for b in w.to_le_bytes() { *h ^= b as u64; *h = h.wrapping_mul(0x100000001b3); } }
+fn table_digest(t: &NTTTables) -> u64 {
+    let mut h = 0xcbf29ce484222325u64;
+    fnv_words(&mut h, t.root()); fnv_words(&mut h, t.coeff_count() as u64); fnv_words(&mut h, t.coeff_count_power() as u64);
+    let d = t.inv_degree_modulo(); fnv_words(&mut h, d.operand); fnv_words(&mut h, d.quotient);
+    for x in t.get_root_powers() { fnv_words(&mut h, x.operand); fnv_words(&mut h, x.quotient); }
+    for x in t.get_inv_root_powers() { fnv_words(&mut h, x.operand); fnv_words(&mut h, x.quotient); }
+    h
+}
+/// first difference between two tables, if any
+fn table_diff(a: &NTTTables, b: &NTTTables) -> Option<String> {
+    if a.root() != b.root() { return Some(format!("root {} vs {}", a.root(), b.root())); }
+    if a.coeff_count() != b.coeff_count() || a.coeff_count_power() != b.coeff_count_power() { return Some("coeff_count".into()); }
+    let (da, db) = (a.inv_degree_modulo(), b.inv_degree_modulo());
+    if da.operand != db.operand || da.quotient != db.quotient { return Some(format!("inv_degree_modulo {:?} vs {:?}", da, db)); }
+    let (ra, rb) = (a.get_root_powers(), b.get_root_powers());
+    if ra.len() != rb.len() { return Some("root_powers length".into()); }
+    for i in 0..ra.len() { if ra[i].operand != rb[i].operand || ra[i].quotient != rb[i].quotient { return Some(format!("root_powers[{}] {:?} vs {:?}", i, ra[i], rb[i])); } }
+    let (ra, rb) = (a.get_inv_root_powers(), b.get_inv_root_powers());
+    if ra.len() != rb.len() { return Some("inv_root_powers length".into()); }
+    for i in 0..ra.len() { if ra[i].operand != rb[i].operand || ra[i].quotient != rb[i].quotient { return Some(format!("inv_root_powers[{}] {:?} vs {:?}", i, ra[i], rb[i])); } }
+    None
+}
+
+// ------------------------------------------------------------------ workload: (N, q) pairs
+fn ref_top_primes(m: u64, bits: usize, k: usize) -> Vec<u64> {
+    let top = (1u64 << bits) - 1;
+    if top < m { return vec![]; }
+    let mut v = top / m * m + 1;
+    let lower = 1u64 << (bits - 1);
+    let mut out = vec![];
+    while out.len() < k && v > lower {
+        if refm::is_prime(v) { out.push(v); }
+        v -= m;
+    }
+    out
+}
+
+fn enumerate_pairs(cfg: &Cfg, rep: &mut Report) -> Vec<Pair> {
+    let maxlog = cfg.pick(11usize, 13usize);
+    let mut rng = Rng::derive(cfg.seed, 0xC09, 0x9a125);
+    let mut pairs = vec![];
+    let mut sample61 = false;
+    for logn in 1..=maxlog {
+        let n = 1usize << logn; let m = 2 * n as u64;
+        let mut seen: BTreeSet<u64> = BTreeSet::new();
+        // (a) every prime = 1 mod 2N below 2^12
+        let mut q = m + 1;
+        while q < 4096 {
+            if refm::is_prime(q) && seen.insert(q) {
+                pairs.push(Pair { logn, q, src: "all_primes_below_2^12", sample: (n == 2 && q == 5) || (n == 4 && q == 17) || (n == 16 && q == 97) });
+            }
+            q += m;
+        }
+        // (b) what get_primes yields for every bit size 2..61 (count = as many as exist, capped)
+        for bits in 2..=61usize {
+            let k = if bits == 61 { cfg.pick(4, 10) } else { cfg.pick(2, 6) };
+            let expected = ref_top_primes(m, bits, k);
+            if expected.is_empty() { rep.count("bit_sizes_without_friendly_prime", &format!("N={:05}", n)); }
+            else {
+                match lib(|| hu::get_primes(m, bits, expected.len())) {
+                    Ok(v) => {
+                        let got: Vec<u64> = v.iter().map(|x| x.value()).collect();
+                        if got != expected {
+                            rep.count("get_primes_vs_reference", "differs");
+                            rep.note(&format!("get_primes({}, {}, {}) = {:?} but the reference enumeration gives {:?} (not a C09 matter; both lists are explored)", m, bits, expected.len(), got, expected));
+                        } else { rep.count("get_primes_vs_reference", "agrees"); }
+                        for q in got { if seen.insert(q) {
+                            let s = bits == 61 && logn == 3 && !sample61; if s { sample61 = true; }
+                            pairs.push(Pair { logn, q, src: "get_primes", sample: s });
+                        } }
+                    }
+                    Err(p) => {
+                        rep.count("get_primes_vs_reference", "panicked");
+                        rep.note(&format!("get_primes({}, {}, {}) panicked although {} such primes exist: {}", m, bits, expected.len(), expected.len(), p.0));
+                    }
+                }
+                for q in expected { if seen.insert(q) { pairs.push(Pair { logn, q, src: "reference_enumeration", sample: false }); } }
+            }
+            // (c) seed-dependent primes of the same size, away from the top of the range
+            let tlo = (((1u64 << (bits - 1)) - 1 + m - 1) / m).max(1);
+            let thi = ((1u64 << bits) - 2) / m;
+            if thi >= tlo {
+                let cnt = thi - tlo + 1;
+                for _ in 0..cfg.pick(1, 2) {
+                    let start = rng.below(cnt);
+                    for d in 0..cnt.min(4000) {
+                        let t = tlo + (start + d) % cnt;
+                        let q = t * m + 1;
+                        if refm::bit_len(q) == bits && refm::is_prime(q) { if seen.insert(q) { pairs.push(Pair { logn, q, src: "random_prime", sample: false }); } break; }
+                    }
+                }
+            }
+        }
+    }
+    pairs
+}
+
+fn parts_for(logn: usize) -> usize {
+    let n = 1u64 << logn;
+    (((n * n * logn as u64) + (1 << 25) - 1) >> 25).max(1) as usize
+}
+
+// ------------------------------------------------------------------ one (pair, part) case
+fn pair_case(cfg: &Cfg, case: u64, rng: &mut Rng, rep: &mut Report, p: &Pair, w: &Work) {
+    let logn = p.logn; let n = 1usize << logn; let q = p.q; let bits = refm::bit_len(q);
+    let cx = Cx { cfg, grp: G_PAIR, case, n, q, bits, src: p.src };
+    // precondition of the property: q prime, q = 1 mod 2N, at most 61 bits
+    if !(refm::is_prime(q) && (q - 1) % (2 * n as u64) == 0 && bits <= 61) {
+        rep.out_of_precondition += 1;
+        rep.note(&format!("modulus {} from {} is not an NTT-friendly prime for N={}; skipped", q, p.src, n));
+        return;
+    }
+    let Some(m) = call(&cx, rep, "Modulus::new", "-", || Modulus::new(q)) else { return };
+    let t1 = match call(&cx, rep, E_NEW, "-", || new_tables(logn, &m)) {
+        Some(Ok(t)) => t,
+        Some(Err(e)) => {
+            rep.violation(&cx.sig(E_NEW, "-", "refused"), format!("NTTTables::new({}, {}) refused an NTT-friendly prime (q = 1 mod 2N): {}", logn, q, e), cx.replay(json!({"entry": E_NEW})));
+            return;
+        }
+        None => return,
+    };
+    let psi = t1.root();
+    let primitive = psi > 0 && psi < q && refm::is_primitive_2n_root(psi, n, q);
+    if w.part == 0 {
+        rep.count("pairs_by_degree", &format!("N={:05}", n));
+        rep.count("pairs_by_modulus_bits", &format!("bits={:02}", bits));
+        rep.count("pairs_by_degree_x_bits", &format!("N={:05},bits={:02}", n, bits));
+        rep.count("pairs_by_modulus_source", p.src);
+        rep.min("modulus", q as f64); rep.max("modulus", q as f64);
+        if !primitive {
+            rep.violation(&cx.sig(E_ROOT, "-", "not_primitive"), format!("N={} q={}: root() = {} but root^N mod q = {} (expected q-1)", n, q, psi, if psi < q { refm::powmod(psi, n as u64, q) } else { 0 }), cx.replay(json!({"entry": E_ROOT})));
+        } else {
+            let want = refm::min_primitive_2n_root(n, q);
+            if want != Some(psi) {
+                rep.violation(&cx.sig(E_ROOT, "-", "not_minimal"), format!("N={} q={}: root() = {} but the smallest primitive 2N-th root of unity is {:?}", n, q, psi, want), cx.replay(json!({"entry": E_ROOT})));
+            }
+        }
+        if t1.coeff_count() != n || t1.coeff_count_power() != logn {
+            rep.violation(&cx.sig(E_NEW, "-", "value"), format!("coeff_count {} / power {} for N={}", t1.coeff_count(), t1.coeff_count_power(), n), cx.replay(json!({"entry": E_NEW})));
+        }
+        // independently constructed tables: a second one on this thread, a third on a fresh thread
+        // (the library's root search starts from thread-local OS randomness)
+        if let Some(Ok(t2)) = call(&cx, rep, E_NEW, "-", || new_tables(logn, &m)) {
+            if let Some(d) = table_diff(&t1, &t2) {
+                rep.violation(&cx.sig(E_NEW, "independent_tables", "value"), format!("N={} q={}: two tables constructed one after the other differ: {}", n, q, d), cx.replay(json!({"entry": E_NEW})));
+            }
+        }
+        let t3 = std::thread::scope(|s| s.spawn(|| lib(|| new_tables(logn, &m))).join());
+        match t3 {
+            Ok(Ok(Ok(t3))) => {
+                rep.count("entry_point", E_NEW);
+                if let Some(d) = table_diff(&t1, &t3) {
+                    rep.violation(&cx.sig(E_NEW, "independent_tables_other_thread", "value"), format!("N={} q={}: a table constructed on another thread differs: {}", n, q, d), cx.replay(json!({"entry": E_NEW})));
+                }
+            }
+            other => {
+                let msg = match other { Ok(Ok(Err(e))) => e, Ok(Err(p)) => p.0, _ => "thread join failed".into() };
+                rep.violation(&cx.sig(E_NEW, "independent_tables_other_thread", "panic"), format!("N={} q={}: constructing the table on another thread failed: {}", n, q, msg), cx.replay(json!({"entry": E_NEW})));
+            }
+        }
+        rep.eval(Some(&cx.class("root_and_tables")));
+    }
+    if !primitive { return; } // the definition needs a primitive root; already reported
+    let r = build_ref(n, logn, q, psi);
+    if r.pw[n] != q - 1 { panic!("harness: reference power table inconsistent"); }
+    let mask = 2 * n - 1;
+
+    // ---------------------------------------------------------------- all unit vectors of this part
+    let lo = w.part * n / w.parts; let hi = (w.part + 1) * n / w.parts;
+    let mut buf = vec![0u64; n];
+    let mut alive = [true; 4];
+    let mut ec = [0u64; 8]; // per entry point: fwd, pm fwd, fwd lazy, pm fwd lazy, inv, pm inv, inv lazy, pm inv lazy
+    for j in lo..hi {
+        // (1) forward strict on e_j : out[i] = psi^(e_i j)
+        if alive[0] {
+            buf.fill(0); buf[j] = 1;
+            let entry = if j & 1 == 0 { E_FWD } else { E_PM_FWD };
+            let res = if j & 1 == 0 { lib(|| t1.ntt_negacyclic_harvey(&mut buf)) } else { lib(|| pm::ntt(&mut buf, &t1)) };
+            ec[j & 1] += 1;
+            match res {
+                Err(pn) => { alive[0] = false; rep.violation(&cx.sig(entry, "unit", "panic"), format!("{} panicked on unit vector e_{} (N={}, q={}): {}", entry, j, n, q, pn.0), cx.replay(json!({"entry": entry, "unit": j}))); }
+                Ok(()) => for i in 0..n {
+                    let want = r.pw[(r.exps[i] * j) & mask];
+                    if buf[i] != want {
+                        alive[0] = false;
+                        rep.violation(&cx.sig(entry, "unit", "value"), format!("{}: N={} q={} psi={}: transform of the unit vector e_{} has output[{}] = {}, the definition psi^((2*bitrev({})+1)*{}) = {}; output {}", entry, n, q, psi, j, i, buf[i], i, j, want, small(&buf)), cx.replay(json!({"entry": entry, "unit": j})));
+                        break;
+                    }
+                },
+            }
+        }
+        // (2) forward lazy on c e_j, c = psi^d + k q in [0,4q) incl. 1, q-1, 4q-1 : out[i] = psi^(d + e_i j) mod q, out < 4q
+        if alive[1] {
+            let (d, k) = match j & 3 { 0 => (0usize, 0u64), 1 => (n, 3), 2 => (rng.usize_below(2 * n), rng.below(4)), _ => (n, 0) };
+            let c = r.pw[d] + k * q;
+            buf.fill(0); buf[j] = c;
+            let entry = if j & 4 == 0 { E_FWD_LAZY } else { E_PM_FWD_LAZY };
+            let res = if j & 4 == 0 { lib(|| t1.ntt_negacyclic_harvey_lazy(&mut buf)) } else { lib(|| pm::ntt_lazy(&mut buf, &t1)) };
+            ec[2 + ((j >> 2) & 1)] += 1;
+            match res {
+                Err(pn) => { alive[1] = false; rep.violation(&cx.sig(entry, "scaled_unit", "panic"), format!("{} panicked on {}*e_{} (N={}, q={}): {}", entry, c, j, n, q, pn.0), cx.replay(json!({"entry": entry, "unit": j, "coefficient": c}))); }
+                Ok(()) => for i in 0..n {
+                    let want = r.pw[(d + r.exps[i] * j) & mask];
+                    let g = buf[i];
+                    if g >= 4 * q {
+                        alive[1] = false;
+                        rep.violation(&cx.sig(entry, "scaled_unit", "range"), format!("{}: N={} q={}: input {}*e_{} (< 4q): output[{}] = {} >= 4q = {}", entry, n, q, c, j, i, g, 4 * q), cx.replay(json!({"entry": entry, "unit": j, "coefficient": c})));
+                        break;
+                    }
+                    if g % q != want {
+                        alive[1] = false;
+                        rep.violation(&cx.sig(entry, "scaled_unit", "value"), format!("{}: N={} q={} psi={}: input {}*e_{}: output[{}] = {} = {} mod q, the definition gives {}", entry, n, q, psi, c, j, i, g, g % q, want), cx.replay(json!({"entry": entry, "unit": j, "coefficient": c})));
+                        break;
+                    }
+                },
+            }
+        }
+        // (3) inverse strict on e_j (j is now an index of the transformed side): out[t] = N^-1 psi^(-e_j t)
+        if alive[2] {
+            buf.fill(0); buf[j] = 1;
+            let entry = if j & 1 == 0 { E_INV } else { E_PM_INV };
+            let res = if j & 1 == 0 { lib(|| t1.inverse_ntt_negacyclic_harvey(&mut buf)) } else { lib(|| pm::intt(&mut buf, &t1)) };
+            ec[4 + (j & 1)] += 1;
+            let e = r.exps[j];
+            match res {
+                Err(pn) => { alive[2] = false; rep.violation(&cx.sig(entry, "unit", "panic"), format!("{} panicked on unit vector e_{} (N={}, q={}): {}", entry, j, n, q, pn.0), cx.replay(json!({"entry": entry, "unit": j}))); }
+                Ok(()) => for t in 0..n {
+                    let want = r.ipws[(e * t) & mask];
+                    if buf[t] != want {
+                        alive[2] = false;
+                        rep.violation(&cx.sig(entry, "unit", "value"), format!("{}: N={} q={} psi={}: inverse transform of e_{} has output[{}] = {}, the inverse of the definition gives N^-1 psi^(-(2*bitrev({})+1)*{}) = {}; output {}", entry, n, q, psi, j, t, buf[t], j, t, want, small(&buf)), cx.replay(json!({"entry": entry, "unit": j})));
+                        break;
+                    }
+                },
+            }
+        }
+        // (4) inverse lazy on c e_j, c = psi^d + k q in [0,2q) incl. 1, q-1, 2q-1
+        if alive[3] {
+            let (d, k) = match j & 3 { 0 => (0usize, 0u64), 1 => (n, 1), 2 => (rng.usize_below(2 * n), rng.below(2)), _ => (n, 0) };
+            let c = r.pw[d] + k * q;
+            buf.fill(0); buf[j] = c;
+            let entry = if j & 4 == 0 { E_INV_LAZY } else { E_PM_INV_LAZY };
+            let res = if j & 4 == 0 { lib(|| t1.inverse_ntt_negacyclic_harvey_lazy(&mut buf)) } else { lib(|| pm::intt_lazy(&mut buf, &t1)) };
+            ec[6 + ((j >> 2) & 1)] += 1;
+            let e = r.exps[j];
+            match res {
+                Err(pn) => { alive[3] = false; rep.violation(&cx.sig(entry, "scaled_unit", "panic"), format!("{} panicked on {}*e_{} (N={}, q={}): {}", entry, c, j, n, q, pn.0), cx.replay(json!({"entry": entry, "unit": j, "coefficient": c}))); }
+                Ok(()) => for t in 0..n {
+                    let want = r.ipws[(e * t + 2 * n - d) & mask];
+                    let g = buf[t];
+                    if g >= 2 * q {
+                        alive[3] = false;
+                        rep.violation(&cx.sig(entry, "scaled_unit", "range"), format!("{}: N={} q={}: input {}*e_{} (< 2q): output[{}] = {} >= 2q = {}", entry, n, q, c, j, t, g, 2 * q), cx.replay(json!({"entry": entry, "unit": j, "coefficient": c})));
+                        break;
+                    }
+                    if g % q != want {
+                        alive[3] = false;
+                        rep.violation(&cx.sig(entry, "scaled_unit", "value"), format!("{}: N={} q={} psi={}: input {}*e_{}: output[{}] = {} = {} mod q, expected {}", entry, n, q, psi, c, j, t, g, g % q, want), cx.replay(json!({"entry": entry, "unit": j, "coefficient": c})));
+                        break;
+                    }
+                },
+            }
+        }
+    }
+    let (c0, c1, c2, c3) = (ec[0] + ec[1], ec[2] + ec[3], ec[4] + ec[5], ec[6] + ec[7]);
+    rep.evals(c0 + c1 + c2 + c3);
+    rep.distinct_key(&cx.class("unit"));
+    rep.count_n("vector_kind", "unit (forward strict)", c0);
+    rep.count_n("vector_kind", "scaled unit incl. 4q-1 (forward lazy)", c1);
+    rep.count_n("vector_kind", "unit (inverse strict)", c2);
+    rep.count_n("vector_kind", "scaled unit incl. 2q-1 (inverse lazy)", c3);
+    for (k, e) in [E_FWD, E_PM_FWD, E_FWD_LAZY, E_PM_FWD_LAZY, E_INV, E_PM_INV, E_INV_LAZY, E_PM_INV_LAZY].iter().enumerate() {
+        if ec[k] > 0 { rep.count_n("entry_point", e, ec[k]); rep.count_n("degree_x_entry_class", &format!("N={:05} {} (unit sweep)", n, e), ec[k]); }
+    }
+
+    // ---------------------------------------------------------------- dense vectors, products (spread over the parts)
+    const JOBS: usize = 14;
+    for job in 0..JOBS {
+        if job % w.parts != w.part { continue; }
+        dense_job(&cx, rep, rng, &t1, &r, &m, logn, job);
+    }
+
+    // ---------------------------------------------------------------- every shift s in 0..2N-1 (spread over the parts)
+    {
+        let pvec: Vec<u64> = (0..n).map(|i| match rng.below(6) { 0 => 0, 1 => q - 1, _ => if i == 0 && n > 2 { 0 } else { rng.below(q) } }).collect();
+        let mut res = vec![0u64; n];
+        let mut cnt = 0u64; let mut ok = true;
+        for s in 0..2 * n {
+            if s % w.parts != w.part || !ok { continue; }
+            res.fill(0x7777_7777_7777_7777);
+            cnt += 1;
+            match lib(|| pm::negacyclic_shift(&pvec, s, &m, &mut res)) {
+                Err(pn) => { ok = false; rep.violation(&cx.sig(E_SHIFT, &format!("shift={}", shift_cls(s, n)), "panic"), format!("negacyclic_shift panicked: N={} q={} shift={}: {}", n, q, s, pn.0), cx.replay(json!({"entry": E_SHIFT, "shift": s, "poly": small(&pvec)}))); }
+                Ok(()) => {
+                    let want = shift_def(&pvec, s, q);
+                    if n <= 64 && want != refm::monomial_shift(&pvec, s, q) { panic!("harness: shift_def disagrees with refm::monomial_shift"); }
+                    if res != want {
+                        ok = false;
+                        let i0 = (0..n).find(|&i| res[i] != want[i]).unwrap_or(0);
+                        rep.violation(&cx.sig(E_SHIFT, &format!("shift={}", shift_cls(s, n)), "value"),
+                            format!("negacyclic_shift(p, {}) != X^{} * p mod (X^{}+1, {}): first difference at coefficient {}: got {}, expected {}; p = {} got {} expected {}", s, s, n, q, i0, res[i0], want[i0], small(&pvec), small(&res), small(&want)),
+                            cx.replay(json!({"entry": E_SHIFT, "shift": s, "poly": small(&pvec)})));
+                    }
+                }
+            }
+        }
+        rep.evals(cnt);
+        rep.distinct_key(&cx.class("shift"));
+        rep.count_n("entry_point", E_SHIFT, cnt);
+        rep.count_n("vector_kind", "every shift 0..2N-1 of a random polynomial with zeros and q-1", cnt);
+        rep.count_n("degree_x_entry_class", &format!("N={:05} negacyclic_shift", n), cnt);
+    }
+
+    if p.sample && w.part == 0 { sample_case(&cx, rep, &t1, &r, &m); }
+}
+
+fn shift_cls(s: usize, n: usize) -> &'static str { if s == 0 { "0" } else if s < n { "1..N-1" } else if s == n { "N" } else { "N+1..2N-1" } }
+
+fn dense_job(cx: &Cx, rep: &mut Report, rng: &mut Rng, t1: &NTTTables, r: &RefT, m: &Modulus, logn: usize, job: usize) {
+    let n = cx.n; let q = cx.q; let psi = r.psi;
+    let conv_limit = cx.cfg.pick(512usize, 2048usize);
+    let note_dense = |rep: &mut Report, kind: &str, entries: &[&str]| {
+        rep.eval(Some(&cx.class(kind)));
+        rep.count("vector_kind", kind);
+        for e in entries { rep.count("degree_x_entry_class", &format!("N={:05} {}", n, e)); }
+    };
+    match job {
+        // ---- forward strict: == definition; inverse(forward(x)) == x
+        0 | 1 => {
+            let (kind, vname, via_pm) = if job == 0 { ("random", "random<q", false) } else { ("max", "all(q-1)", true) };
+            let x = gen_vec(rng, n, q, 1, kind);
+            let (ef, ei) = if via_pm { (E_PM_FWD, E_PM_INV) } else { (E_FWD, E_INV) };
+            let mut y = x.clone();
+            if call(cx, rep, ef, vname, || if via_pm { pm::ntt(&mut y, t1) } else { t1.ntt_negacyclic_harvey(&mut y) }).is_none() { return; }
+            let want = fwd_def(r, &x);
+            if n <= 64 && want != refm::ntt_ref(&x, psi, q) { panic!("harness: fwd_def disagrees with refm::ntt_ref"); }
+            cmp_exact(cx, rep, ef, vname, &x, &y, &want);
+            let mut z = y.clone();
+            if call(cx, rep, ei, &format!("forward({})", vname), || if via_pm { pm::intt(&mut z, t1) } else { t1.inverse_ntt_negacyclic_harvey(&mut z) }).is_some() {
+                cmp_exact(cx, rep, ei, &format!("forward({})", vname), &y, &z, &x);
+            }
+            note_dense(rep, &format!("{} (forward strict + round trip)", vname), &[ef, ei]);
+        }
+        // ---- forward lazy: inputs < 4q -> outputs < 4q, congruent to the definition on the reduced input
+        2 | 3 | 4 => {
+            let (kind, vname, via_pm) = match job { 2 => ("random", "random<4q", false), 3 => ("max", "all(4q-1)", true), _ => ("mix", "boundary_mix<4q", false) };
+            let x = gen_vec(rng, n, q, 4, kind);
+            let ef = if via_pm { E_PM_FWD_LAZY } else { E_FWD_LAZY };
+            let mut y = x.clone();
+            if call(cx, rep, ef, vname, || if via_pm { pm::ntt_lazy(&mut y, t1) } else { t1.ntt_negacyclic_harvey_lazy(&mut y) }).is_none() { return; }
+            let xr = reduce_vec(&x, q);
+            let want = fwd_def(r, &xr);
+            cmp_lazy(cx, rep, ef, vname, &x, &y, &want, 4, "forward_lazy_output_over_q");
+            // the strict form on the reduced input gives exactly the residues
+            let mut ys = xr.clone();
+            if call(cx, rep, E_FWD, &format!("reduced({})", vname), || t1.ntt_negacyclic_harvey(&mut ys)).is_some() {
+                cmp_exact(cx, rep, E_FWD, &format!("reduced({})", vname), &xr, &ys, &want);
+            }
+            note_dense(rep, &format!("{} (forward lazy)", vname), &[ef, E_FWD]);
+        }
+        // ---- inverse strict: forward_definition(inverse(z)) == z, library forward(inverse(z)) == z
+        5 | 6 => {
+            let (kind, vname, via_pm) = if job == 5 { ("random", "random<q", false) } else { ("max", "all(q-1)", true) };
+            let z = gen_vec(rng, n, q, 1, kind);
+            let (ef, ei) = if via_pm { (E_PM_FWD, E_PM_INV) } else { (E_FWD, E_INV) };
+            let mut wv = z.clone();
+            if call(cx, rep, ei, vname, || if via_pm { pm::intt(&mut wv, t1) } else { t1.inverse_ntt_negacyclic_harvey(&mut wv) }).is_none() { return; }
+            if let Some(i) = (0..n).find(|&i| wv[i] >= q) {
+                rep.violation(&cx.sig(ei, vname, "range"), format!("{}: N={} q={}: output[{}] = {} is not reduced; input {}", ei, n, q, i, wv[i], small(&z)), cx.replay(json!({"entry": ei, "vector": vname, "input": small(&z)})));
+            } else {
+                // w is the inverse image iff the definition maps it back to z
+                let back = fwd_def(r, &wv);
+                if back != z {
+                    let i0 = (0..n).find(|&i| back[i] != z[i]).unwrap_or(0);
+                    rep.violation(&cx.sig(ei, vname, "value"), format!("{}: N={} q={} psi={}: the definition applied to the inverse transform does not give the input back (index {}: {} vs {}); input {} inverse {}", ei, n, q, psi, i0, back[i0], z[i0], small(&z), small(&wv)), cx.replay(json!({"entry": ei, "vector": vname, "input": small(&z)})));
+                }
+                if n <= 256 {
+                    let want = refm::intt_ref(&z, psi, q);
+                    cmp_exact(cx, rep, ei, &format!("{};inverse_formula", vname), &z, &wv, &want);
+                }
+            }
+            let mut f = wv.clone();
+            if wv.iter().all(|&x| x < q) && call(cx, rep, ef, &format!("inverse({})", vname), || if via_pm { pm::ntt(&mut f, t1) } else { t1.ntt_negacyclic_harvey(&mut f) }).is_some() {
+                cmp_exact(cx, rep, ef, &format!("inverse({})", vname), &wv, &f, &z);
+            }
+            note_dense(rep, &format!("{} (inverse strict + round trip)", vname), &[ei, ef]);
+        }
+        // ---- inverse lazy: inputs < 2q -> outputs < 2q, congruent to the inverse image
+        7 | 8 | 9 => {
+            let (kind, vname, via_pm) = match job { 7 => ("random", "random<2q", false), 8 => ("max", "all(2q-1)", true), _ => ("mix", "boundary_mix<2q", false) };
+            let z = gen_vec(rng, n, q, 2, kind);
+            let ei = if via_pm { E_PM_INV_LAZY } else { E_INV_LAZY };
+            let mut wv = z.clone();
+            if call(cx, rep, ei, vname, || if via_pm { pm::intt_lazy(&mut wv, t1) } else { t1.inverse_ntt_negacyclic_harvey_lazy(&mut wv) }).is_none() { return; }
+            let zr = reduce_vec(&z, q);
+            let wr = reduce_vec(&wv, q);
+            let back = fwd_def(r, &wr);
+            // congruence: the residues of the output are the inverse image of the residues of the input
+            let mut ok = true;
+            if back != zr {
+                ok = false;
+                let i0 = (0..n).find(|&i| back[i] != zr[i]).unwrap_or(0);
+                rep.violation(&cx.sig(ei, vname, "value"), format!("{}: N={} q={} psi={}: the definition applied to the (reduced) lazy inverse does not give the reduced input back (index {}: {} vs {}); input {} output {}", ei, n, q, psi, i0, back[i0], zr[i0], small(&z), small(&wv)), cx.replay(json!({"entry": ei, "vector": vname, "input": small(&z)})));
+            }
+            if let Some(i) = (0..n).find(|&i| wv[i] >= 2 * q) {
+                ok = false;
+                rep.violation(&cx.sig(ei, vname, "range"), format!("{}: N={} q={}: output[{}] = {} is not below 2q = {} although every input is below 2q; input {}", ei, n, q, i, wv[i], 2 * q, small(&z)), cx.replay(json!({"entry": ei, "vector": vname, "input": small(&z)})));
+            }
+            rep.max("inverse_lazy_output_over_q", *wv.iter().max().unwrap() as f64 / q as f64);
+            // strict inverse of the reduced input gives exactly the residues
+            let mut ws = zr.clone();
+            if ok && call(cx, rep, E_INV, &format!("reduced({})", vname), || t1.inverse_ntt_negacyclic_harvey(&mut ws)).is_some() {
+                cmp_exact(cx, rep, E_INV, &format!("reduced({})", vname), &zr, &ws, &wr);
+            }
+            note_dense(rep, &format!("{} (inverse lazy)", vname), &[ei, E_INV]);
+        }
+        // ---- dyadic product of transforms == negacyclic product
+        10 | 11 => {
+            let dense = n <= conv_limit;
+            let (a, b, want, vname): (Vec<u64>, Vec<u64>, Vec<u64>, &str) = if job == 11 {
+                // a = b = all (q-1) = -(1+X+..+X^(N-1)); coefficient k of the square is (k+1) - (N-1-k)
+                let a = vec![q - 1; n];
+                let want: Vec<u64> = (0..n).map(|k| (2 * k as i128 + 2 - n as i128).rem_euclid(q as i128) as u64).collect();
+                if dense && want != refm::negacyclic_mul(&a, &a, q) { panic!("harness: closed form of (sum X^i)^2 wrong"); }
+                (a.clone(), a, want, "all(q-1)*all(q-1)")
+            } else if dense {
+                let mut a = gen_vec(rng, n, q, 1, "random"); let mut b = gen_vec(rng, n, q, 1, "random");
+                a[rng.usize_below(n)] = q - 1; b[rng.usize_below(n)] = 0; a[n - 1] = q - 1; b[n - 1] = q - 1;
+                let want = refm::negacyclic_mul(&a, &b, q);
+                (a, b, want, "dense*dense")
+            } else {
+                // sparse (three monomials incl. the top one) times dense: sum of c_k X^(s_k) b by the shift definition
+                let b = gen_vec(rng, n, q, 1, "random");
+                let mut a = vec![0u64; n];
+                let mut want = vec![0u64; n];
+                let terms = [(n - 1, q - 1), (rng.usize_below(n - 1), rng.range(1, q - 1)), (0usize, 1u64)];
+                for &(s, c) in &terms {
+                    if a[s] != 0 { continue; }
+                    a[s] = c;
+                    want = refm::poly_add(&want, &refm::poly_scale(&refm::monomial_shift(&b, s, q), c, q), q);
+                }
+                (a, b, want, "sparse3*dense")
+            };
+            let (mut fa, mut fb) = (a.clone(), b.clone());
+            if call(cx, rep, E_FWD, vname, || t1.ntt_negacyclic_harvey(&mut fa)).is_none() { return; }
+            if call(cx, rep, E_PM_FWD, vname, || pm::ntt(&mut fb, t1)).is_none() { return; }
+            let mut fc = vec![0x5555u64; n];
+            if call(cx, rep, E_DYADIC, vname, || pm::dyadic_product(&fa, &fb, m, &mut fc)).is_none() { return; }
+            let pointwise: Vec<u64> = (0..n).map(|i| refm::mulmod(fa[i] % q, fb[i] % q, q)).collect();
+            cmp_exact(cx, rep, E_DYADIC, &format!("transforms({});pointwise", vname), &fa, &fc, &pointwise);
+            let mut fd = fa.clone();
+            if call(cx, rep, E_DYADIC_INPLACE, vname, || pm::dyadic_product_inplace(&mut fd, &fb, m)).is_some() {
+                cmp_exact(cx, rep, E_DYADIC_INPLACE, &format!("transforms({});pointwise", vname), &fa, &fd, &pointwise);
+            }
+            let mut c = fc.clone();
+            let via_pm = job == 11;
+            let ei = if via_pm { E_PM_INV } else { E_INV };
+            if call(cx, rep, ei, vname, || if via_pm { pm::intt(&mut c, t1) } else { t1.inverse_ntt_negacyclic_harvey(&mut c) }).is_some() {
+                // signature on the product pipeline, not on one entry point
+                if c != want {
+                    let i0 = (0..n).find(|&i| c[i] != want[i]).unwrap_or(0);
+                    rep.violation(&cx.sig("intt(dyadic_product(ntt(a),ntt(b)))", vname, "value"),
+                        format!("N={} q={}: inverse transform of the dyadic product of the transforms differs from a*b mod (X^N+1, q) at coefficient {}: got {}, expected {}; a = {} b = {} got {} expected {}", n, q, i0, c[i0], want[i0], small(&a), small(&b), small(&c), small(&want)),
+                        cx.replay(json!({"entry": "convolution", "vector": vname, "a": small(&a), "b": small(&b)})));
+                }
+            }
+            rep.count("convolution_reference", if job == 11 { "closed form (and schoolbook when N <= limit)" } else if dense { "schoolbook N^2" } else { "sparse (3 monomials) by shifts" });
+            note_dense(rep, &format!("{} (convolution)", vname), &[E_DYADIC, E_DYADIC_INPLACE, E_FWD, E_PM_FWD, ei]);
+        }
+        // ---- three independently constructed tables transform identically (ntt_p / dyadic_product_p / intt_p over [t1,t2,t3])
+        12 => {
+            let vname = "random<q;three_tables";
+            let Some(Ok(t2)) = call(cx, rep, E_NEW, "-", || new_tables(logn, m)) else { return };
+            let t3 = match std::thread::scope(|s| s.spawn(|| lib(|| new_tables(logn, m))).join()) { Ok(Ok(Ok(t))) => t, _ => return /* reported by part 0 */ };
+            let tabs = vec![t1.clone(), t2, t3];
+            let x = gen_vec(rng, n, q, 1, "random");
+            let mut data: Vec<u64> = [x.clone(), x.clone(), x.clone()].concat();
+            if call(cx, rep, E_PM_FWD_P, vname, || pm::ntt_p(&mut data, n, &tabs)).is_none() { return; }
+            let want = fwd_def(r, &x);
+            for k in 0..3 { cmp_exact(cx, rep, E_PM_FWD_P, &format!("{};table{}", vname, k + 1), &x, &data[k * n..(k + 1) * n], &want); }
+            let mods = vec![*m, *m, *m];
+            let mut sq = vec![0u64; 3 * n];
+            if call(cx, rep, E_DYADIC_P, vname, || pm::dyadic_product_p(&data, &data, n, &mods, &mut sq)).is_none() { return; }
+            let pw2: Vec<u64> = want.iter().map(|&v| refm::mulmod(v, v, q)).collect();
+            for k in 0..3 { cmp_exact(cx, rep, E_DYADIC_P, &format!("{};component{}", vname, k + 1), &want, &sq[k * n..(k + 1) * n], &pw2); }
+            if call(cx, rep, E_PM_INV_P, vname, || pm::intt_p(&mut sq, n, &tabs)).is_none() { return; }
+            if n <= conv_limit {
+                let xx = refm::negacyclic_mul(&x, &x, q);
+                for k in 0..3 { cmp_exact(cx, rep, E_PM_INV_P, &format!("{};square;table{}", vname, k + 1), &x, &sq[k * n..(k + 1) * n], &xx); }
+            } else {
+                let first = sq[..n].to_vec();
+                let back = fwd_def(r, &first);
+                cmp_exact(cx, rep, E_PM_INV_P, &format!("{};definition(inverse)==pointwise_square", vname), &pw2, &back, &pw2);
+                for k in 1..3 { cmp_exact(cx, rep, E_PM_INV_P, &format!("{};table{}_vs_table1", vname, k + 1), &pw2, &sq[k * n..(k + 1) * n], &first); }
+            }
+            note_dense(rep, "random<q through three independent tables (ntt_p, dyadic_product_p, intt_p)", &[E_PM_FWD_P, E_DYADIC_P, E_PM_INV_P]);
+        }
+        // ---- outside the documented range of the inverse lazy form: executed, never reported
+        _ => {
+            let z = vec![4 * q - 1; n];
+            let mut wv = z.clone();
+            rep.out_of_precondition += 1;
+            let outcome = match lib(|| t1.inverse_ntt_negacyclic_harvey_lazy(&mut wv)) {
+                Err(_) => "panic",
+                Ok(()) => {
+                    let wr = reduce_vec(&wv, q);
+                    let congruent = fwd_def(r, &wr) == reduce_vec(&z, q);
+                    let in_range = wv.iter().all(|&v| v < 2 * q);
+                    match (congruent, in_range) { (true, true) => "congruent, < 2q", (true, false) => "congruent, >= 2q", (false, _) => "not congruent" }
+                }
+            };
+            rep.count("out_of_precondition: inverse lazy on all(4q-1)", &format!("bits={} -> {}", if cx.bits == 61 { "61" } else if cx.bits == 60 { "60" } else { "<60" }, outcome));
+        }
+    }
+}
+
+fn sample_case(cx: &Cx, rep: &mut Report, t1: &NTTTables, r: &RefT, m: &Modulus) {
+    let n = cx.n; let q = cx.q;
+    let x: Vec<u64> = (0..n).map(|i| (i as u64 + 1) % q).collect();
+    let mut f = x.clone(); if lib(|| t1.ntt_negacyclic_harvey(&mut f)).is_err() { return; }
+    let xl: Vec<u64> = x.iter().map(|&v| v + 3 * q).collect();
+    let mut fl = xl.clone(); if lib(|| t1.ntt_negacyclic_harvey_lazy(&mut fl)).is_err() { return; }
+    let mut back = f.clone(); if lib(|| t1.inverse_ntt_negacyclic_harvey(&mut back)).is_err() { return; }
+    let il_in: Vec<u64> = f.iter().map(|&v| v + q).collect();
+    let mut il = il_in.clone(); if lib(|| t1.inverse_ntt_negacyclic_harvey_lazy(&mut il)).is_err() { return; }
+    let mut sq = vec![0u64; n]; if lib(|| pm::dyadic_product(&f, &f, m, &mut sq)).is_err() { return; }
+    let mut xx = sq.clone(); if lib(|| pm::intt(&mut xx, t1)).is_err() { return; }
+    let mut sh = vec![0u64; n]; if lib(|| pm::negacyclic_shift(&x, n + 1, m, &mut sh)).is_err() { return; }
+    rep.sample(json!({
+        "N": n, "q": q, "modulus_source": cx.src, "root_psi": r.psi, "reference_minimal_root": refm::min_primitive_2n_root(n, q),
+        "input": x, "forward": f, "definition": fwd_def(r, &x),
+        "forward_lazy_input(x+3q)": xl, "forward_lazy_output": fl, "four_q": 4 * q,
+        "inverse(forward)": back,
+        "inverse_lazy_input(forward+q)": il_in, "inverse_lazy_output": il, "two_q": 2 * q,
+        "dyadic_square": sq, "intt(dyadic_square)": xx, "schoolbook_square": refm::negacyclic_mul(&x, &x, q),
+        "negacyclic_shift(x, N+1)": sh, "X^(N+1)*x": shift_def(&x, n + 1, q),
+    }));
+}
+
+// ------------------------------------------------------------------ second process
+fn child(spec: &str) {
+    for item in spec.split(';') {
+        let mut it = item.split(':');
+        let (Some(a), Some(b)) = (it.next(), it.next()) else { continue };
+        let (Ok(logn), Ok(q)) = (a.parse::<usize>(), b.parse::<u64>()) else { continue };
+        match lib(|| { let m = Modulus::new(q); new_tables(logn, &m) }) {
+            Ok(Ok(t)) => println!("{} {} {} {:016x}", logn, q, t.root(), table_digest(&t)),
+            Ok(Err(e)) => println!("{} {} ERR {}", logn, q, e.replace(' ', "_")),
+            Err(p) => println!("{} {} ERR panic:{}", logn, q, p.0.replace(' ', "_")),
+        }
+    }
+}
+
+fn xproc_case(cfg: &Cfg, slice: u64, rep: &mut Report, pairs: &[Pair], nslices: u64) {
+    let mine: Vec<&Pair> = pairs.iter().enumerate().filter(|(i, _)| *i as u64 % nslices == slice).map(|(_, p)| p).collect();
+    if mine.is_empty() { return; }
+    let spec: Vec<String> = mine.iter().map(|p| format!("{}:{}", p.logn, p.q)).collect();
+    let exe = match std::env::current_exe() { Ok(e) => e, Err(e) => { rep.note(&format!("xproc: current_exe unavailable ({}); second-process comparison not run", e)); return; } };
+    let out = match std::process::Command::new(exe).arg("C09").env(CHILD_ENV, spec.join(";")).output() {
+        Ok(o) => o,
+        Err(e) => { rep.note(&format!("xproc: could not spawn a second process ({}); second-process comparison not run", e)); return; }
+    };
+    let text = String::from_utf8_lossy(&out.stdout);
+    let lines: Vec<&str> = text.lines().filter(|l| !l.trim().is_empty()).collect();
+    if !out.status.success() || lines.len() != mine.len() {
+        rep.harness_errors.push(format!("xproc slice {}: child exit {:?}, {} lines for {} pairs; stderr {}", slice, out.status.code(), lines.len(), mine.len(), String::from_utf8_lossy(&out.stderr).chars().take(300).collect::<String>()));
+        return;
+    }
+    for (p, line) in mine.iter().zip(lines) {
+        let n = 1usize << p.logn; let bits = refm::bit_len(p.q);
+        let cx = Cx { cfg, grp: G_XPROC, case: slice, n, q: p.q, bits, src: p.src };
+        let f: Vec<&str> = line.split_whitespace().collect();
+        if f.len() < 4 || f[0] != p.logn.to_string() || f[1] != p.q.to_string() { rep.harness_errors.push(format!("xproc: unexpected child line {:?}", line)); continue; }
+        let m = Modulus::new(p.q);
+        let here = lib(|| new_tables(p.logn, &m));
+        rep.count("entry_point", E_NEW);
+        match here {
+            Ok(Ok(t)) => {
+                if f[2] == "ERR" {
+                    rep.violation(&cx.sig(E_NEW, "second_process", "refused"), format!("N={} q={}: table construction failed in a second process ({}) but not here", n, p.q, f[3]), cx.replay(json!({"entry": E_NEW})));
+                } else if f[2] != t.root().to_string() || f[3] != format!("{:016x}", table_digest(&t)) {
+                    rep.violation(&cx.sig(E_NEW, "second_process", "value"), format!("N={} q={}: a second process constructed root {} / table digest {}, this process root {} / digest {:016x}", n, p.q, f[2], f[3], t.root(), table_digest(&t)), cx.replay(json!({"entry": E_NEW})));
+                }
+                rep.eval(Some(&cx.class("second_process_tables")));
+                rep.count("second_process_tables_by_degree", &format!("N={:05}", n));
+            }
+            _ => { /* construction failure here is reported by the pair group */ }
+        }
+    }
+}
+
+pub fn run(cfg: &Cfg, rep: &mut Report) -> PropMeta {
+    if let Ok(spec) = std::env::var(CHILD_ENV) { child(&spec); std::process::exit(0); }
+
+    let pairs = enumerate_pairs(cfg, rep);
+    let mut work: Vec<Work> = vec![];
+    for (i, p) in pairs.iter().enumerate() {
+        let parts = parts_for(p.logn).min(1 << p.logn);
+        for part in 0..parts { work.push(Work { pair: i, part, parts }); }
+    }
+    // heaviest first (stable, deterministic): keeps the tail of the parallel run short
+    work.sort_by_key(|w| std::cmp::Reverse(pairs[w.pair].logn));
+    rep.note(&format!("{} (N,q) pairs, {} cases; degrees 2..{}; N = 2^14..2^17 are not explored (time/memory)", pairs.len(), work.len(), 1u64 << cfg.pick(11, 13)));
+    rep.note("no prime = 1 mod 2N has 2 bits for any N >= 2 (smallest is q = 5 for N = 2), so modulus bit sizes start at 3");
+
+    run_cases(cfg, G_PAIR, work.len() as u64, rep, |i, rng, rep| {
+        let w = work[i as usize];
+        pair_case(cfg, i, rng, rep, &pairs[w.pair], &w);
+    });
+
+    let nslices = cfg.pick(16u64, 32u64);
+    run_cases(cfg, G_XPROC, nslices, rep, |i, _rng, rep| xproc_case(cfg, i, rep, &pairs, nslices));
+
+    PropMeta {
+        id: "C09", level: "exploration",
+        rule: "degrees N = 2..2^11 (quick) / 2..2^13 (thorough) x moduli {every prime = 1 mod 2N below 2^12; the primes get_primes(2N, bits, k) yields for every bit size 2..61 where any exist (k = 2/6, 61 bits: 4/10); 1/2 seed-dependent random friendly primes per bit size}. Per (N,q): root checks (psi^N = -1, psi = brute-force minimal primitive 2N-th root, three independently constructed tables - one on another thread - word-identical, one more in a second process); ALL N unit vectors through forward strict, forward lazy (scaled by 1, q-1, 4q-1, random psi^d + kq < 4q), inverse strict, inverse lazy (scaled by 1, q-1, 2q-1, random < 2q) against the column formula; dense vectors (random, all(q-1), lazy maxima all(4q-1) / all(2q-1), boundary mixes) against the O(N^2) definition, both round trips; dyadic product of transforms vs schoolbook negacyclic product (N <= 512 quick / 2048 thorough; sparse x dense and the closed form of (sum X^i)^2 above); negacyclic_shift for EVERY s in 0..2N-1. The sub-space {N <= 512, q < 4096} x unit vectors x shifts is enumerated completely. evaluations = vectors/shifts checked; distinct = (N, modulus bits, vector kind) classes",
+        assumptions: vec![
+            "u128 arithmetic of rustc; refm (Miller-Rabin with the 12 fixed bases is deterministic below 2^64)".into(),
+            "documented lazy ranges: forward [0,4q) -> [0,4q) (rns.rs:725-732, ntt.rs:161-162); inverse [0,2q) -> [0,2q) (butterfly invariant of transform_from_rev, callers in evaluator.rs:1296-1304). Inverse-lazy inputs in [2q,4q) are probed but counted out of precondition".into(),
+            "strict transforms, dyadic_product and negacyclic_shift take reduced inputs (< q); shifts are in [0,2N)".into(),
+            "transforms are linear maps, so the N unit vectors determine them up to value-dependent reduction errors, which the dense and extreme vectors target".into(),
+            "table agreement compares root, inv_degree_modulo, root_powers and inv_root_powers word for word (operand and quotient); the second process is this binary re-executed".into(),
+        ],
+        exhaustive: false, floor: 10_000,
+    }
 }
